@@ -958,6 +958,14 @@ def _delegates_elsewhere(idx, ef, f, recv):
     """The receiver is statically known to be an object of another class (delegation, not recursion)."""
     if isinstance(recv, ast.Name) and recv.id == "self":
         return False
+    if isinstance(recv, ast.Name):
+        # a local name bound once, by a plain assignment, stands for the expression assigned to it
+        binds = [n for n in ast.walk(f.node) if isinstance(n, ast.Name) and n.id == recv.id and isinstance(n.ctx, ast.Store)]
+        asg = [n for n in ast.walk(f.node) if isinstance(n, ast.Assign) and len(n.targets) == 1 and isinstance(n.targets[0], ast.Name) and
+               n.targets[0].id == recv.id]
+        if len(binds) == 1 and len(asg) == 1 and recv.id not in [a.arg for a in f.node.args.args + f.node.args.kwonlyargs] and \
+                not (isinstance(asg[0].value, ast.Name) and asg[0].value.id == recv.id):
+            return _delegates_elsewhere(idx, ef, f, asg[0].value)
     t = ef.type_of(recv, f, ef.guard_types(f))
     if t is not None and f.cls is not None and t is not f.cls and f.cls not in idx.bases_of(t) and t not in idx.bases_of(f.cls):
         return True
